@@ -924,7 +924,7 @@ Definition block_facts (hash : key -> N) (ri nb : N) (cs : list (list entry)) (B
     let D := data_of cs in
     let offs := offs_of 0 cs in
     let BI := bin_bytes step offs in
-    B = D ++ TRAILER_START_MARKER :: BI ++ HI ++ TR /\
+    B = D ++ TRAILER_START_MARKER :: BI ++ HI ++ TR /\ length TR = 31%nat /\
     read_trailer B = Some (mkTr ri (N.of_nat step) (N.of_nat (length cs))
                              (N.of_nat (length D + 1)) hlen hoff
                              (N.of_nat (length (concat cs)))) /\
@@ -1025,7 +1025,11 @@ Proof.
   { intros TRb. unfold w3, w1. destruct wh.
     - rewrite (flat_map_write_u8 _ HHwf). rewrite <- !app_assoc. reflexivity.
     - rewrite <- !app_assoc. reflexivity. }
-  split; [apply EB|]. split; [|split; [|split]].
+  split; [apply EB|].
+  split.
+  { rewrite !app_length. unfold write_u8, write_u16_le, write_u32_le.
+    rewrite !le_bytes_length. reflexivity. }
+  split; [|split; [|split]].
   - assert (Eho : (if wh then trunc 32 (N.of_nat (length (w1 ++ BIb))) else 0)
                   = (if wh then N.of_nat (length D + 1 + length BIb) else 0)).
     { destruct wh; [|reflexivity]. rewrite app_length, L1. apply trunc_small. exact LD. }
@@ -1116,7 +1120,7 @@ Lemma decoder_new_facts hash ri nb cs B :
     lo_off st = 0%nat /\ lo_rem st = 0%nat /\ hi_base st = None /\
     exists rest, B = data_of cs ++ TRAILER_START_MARKER :: rest.
 Proof.
-  intros (step & HI & TR & hlen & hoff & F1 & F2 & _). cbv zeta in *.
+  intros (step & HI & TR & hlen & hoff & F1 & _ & F2 & _). cbv zeta in *.
   unfold decoder_new. rewrite F2. eexists _, _. split; [reflexivity|].
   cbn [d_ri lo_off lo_rem hi_base t_ri]. repeat split. eexists. exact F1.
 Qed.
@@ -1142,6 +1146,677 @@ Proof.
     + exact Hb.
   - rewrite cs_of_concat by lia.
     pose proof (concat_le_data (cs_of ri items)) as L. rewrite cs_of_concat in L by lia.
-    assert (length (data_of (cs_of ri items)) <= length B)%nat; [|lia].
-    rewrite EB at 2. rewrite app_length. lia.
+    assert (LB := f_equal (@length N) EB). rewrite app_length in LB. lia.
 Qed.
+
+(** * I. binary index and binary search *)
+
+Lemma bin_bytes_skipn step : forall offs j, (j < length offs)%nat ->
+  skipn (j * step) (bin_bytes step offs)
+  = le_bytes (N.of_nat (nth j offs 0%nat)) step ++ bin_bytes step (skipn (S j) offs).
+Proof.
+  induction offs as [|o offs IH]; intros j Hj; [cbn [length] in Hj; lia|].
+  destruct j as [|j].
+  - cbn [Nat.mul skipn nth]. reflexivity.
+  - cbn [nth]. change (skipn (S (S j)) (o :: offs)) with (skipn (S j) offs).
+    unfold bin_bytes at 1. cbn [flat_map]. fold (bin_bytes step offs).
+    replace (S j * step)%nat with (length (le_bytes (N.of_nat o) step) + j * step)%nat
+      by (rewrite le_bytes_length; lia).
+    rewrite skipn_add, skipn_app_len. apply IH. cbn [length] in Hj. lia.
+Qed.
+
+Lemma bin_get_ok step offs j :
+  (step = 2 \/ step = 4)%nat ->
+  Forall (fun o => N.of_nat o < 2 ^ (8 * N.of_nat step)) offs ->
+  (j < length offs)%nat ->
+  bin_get (mkBR (bin_bytes step offs) step) j = Some (nth j offs 0%nat).
+Proof.
+  intros Hs Hf Hj. unfold bin_get. cbn [br_bytes br_step].
+  rewrite bin_bytes_length.
+  assert (E : Nat.ltb (length offs * step) (j * step) = false).
+  { apply Nat.ltb_ge. apply Nat.mul_le_mono_r. lia. }
+  rewrite E. rewrite (bin_bytes_skipn step offs j Hj).
+  assert (Hv : N.of_nat (nth j offs 0%nat) < 2 ^ (8 * N.of_nat step)).
+  { rewrite Forall_forall in Hf. apply Hf. now apply nth_In. }
+  destruct Hs as [-> | ->]; cbn [Nat.eqb]; unfold read_u16_le, read_u32_le;
+    rewrite (le_roundtrip _ _ _ Hv); now rewrite Nat2N.id.
+Qed.
+
+Lemma data_of_app a b : data_of (a ++ b) = data_of a ++ data_of b.
+Proof. unfold data_of. apply flat_map_app. Qed.
+
+Lemma offs_of_nth : forall cs off j, (j < length cs)%nat ->
+  nth j (offs_of off cs) 0%nat = (off + length (data_of (firstn j cs)))%nat.
+Proof.
+  induction cs as [|c cs IH]; intros off j Hj; [cbn [length] in Hj; lia|].
+  destruct j as [|j]; cbn [offs_of nth firstn].
+  - cbn. lia.
+  - rewrite IH by (cbn [length] in Hj; lia). unfold data_of. cbn [flat_map]. rewrite app_length. lia.
+Qed.
+
+(** heads of the restart intervals *)
+Definition chunk_head (c : list entry) : key * N :=
+  match c with h :: _ => (ukey h, seq h) | [] => ([], 0) end.
+
+Section Reader.
+Variable hash : key -> N.
+Variables (ri nb : N) (cs : list (list entry)) (B : list N).
+Hypothesis F : block_facts hash ri nb cs B.
+
+Let offs := offs_of 0 cs.
+
+Lemma reader_facts :
+  exists d st r rest,
+    decoder_new B = Some (d, st) /\ d_ri d = N.to_nat ri /\
+    lo_off st = 0%nat /\ lo_rem st = 0%nat /\ hi_base st = None /\
+    B = data_of cs ++ TRAILER_START_MARKER :: rest /\
+    get_binary_index_reader B d = Some r /\
+    bin_reader_len r = Some (length cs) /\
+    (forall j, (j < length cs)%nat -> bin_get r j = Some (nth j offs 0%nat)).
+Proof.
+  destruct F as (step & HI & TR & hlen & hoff & F1 & LTR & F2 & F3 & F4 & F5). cbv zeta in *.
+  unfold decoder_new. rewrite F2.
+  eexists _, _, (mkBR (bin_bytes step offs) step), _.
+  split; [reflexivity|]. cbn [d_ri lo_off lo_rem hi_base t_ri t_step t_binoff t_binlen].
+  split; [reflexivity|]. split; [reflexivity|]. split; [reflexivity|]. split; [reflexivity|].
+  split; [exact F1|].
+  assert (LBI : length (bin_bytes step offs) = (length cs * step)%nat).
+  { rewrite bin_bytes_length. unfold offs. now rewrite offs_of_length. }
+  split; [|split].
+  - unfold get_binary_index_reader, bin_reader_new. cbn [d_binoff d_binlen d_step].
+    rewrite !Nat2N.id. rewrite <- LBI.
+    erewrite slice_at'; [reflexivity| |].
+    + rewrite F1 at 1.
+      replace (length (data_of cs) + 1)%nat with (length (data_of cs ++ [TRAILER_START_MARKER]))
+        by (rewrite app_length; reflexivity).
+      change (data_of cs ++ TRAILER_START_MARKER :: bin_bytes step (offs_of 0 cs) ++ HI ++ TR)
+        with (data_of cs ++ [TRAILER_START_MARKER] ++ bin_bytes step (offs_of 0 cs) ++ HI ++ TR).
+      rewrite app_assoc. rewrite skipn_app_len. reflexivity.
+    + intros E. apply app_eq_nil in E. destruct E as [_ E]. subst TR. discriminate.
+  - unfold bin_reader_len. cbn [br_step br_bytes].
+    destruct F3 as [-> | ->]; rewrite LBI; now rewrite Nat.div_mul by lia.
+  - intros j Hj. apply bin_get_ok; auto. unfold offs. now rewrite offs_of_length.
+Qed.
+
+End Reader.
+
+Lemma skipn_nth_cons {A} (d : A) : forall (l : list A) j, (j < length l)%nat ->
+  skipn j l = nth j l d :: skipn (S j) l.
+Proof.
+  induction l as [|x l IH]; intros j Hj; [cbn [length] in Hj; lia|].
+  destruct j as [|j]; [reflexivity|]. cbn [skipn nth]. apply IH. cbn [length] in Hj. lia.
+Qed.
+
+Lemma chunked_nonempty n : (1 <= n)%nat -> forall cs c, chunked n cs -> In c cs -> c <> [].
+Proof.
+  intros Hn. induction cs as [|c0 cs IH]; intros c C H; [destruct H|].
+  cbn [chunked] in C. destruct cs as [|c1 cs'].
+  - destruct H as [<-|[]]. apply C.
+  - destruct C as [C1 C2]. destruct H as [<-|H]; [|now apply IH].
+    intros ->. cbn [length] in C1. lia.
+Qed.
+
+Lemma restart_at cs B rest j :
+  B = data_of cs ++ TRAILER_START_MARKER :: rest -> (j < length cs)%nat ->
+  skipn (nth j (offs_of 0 cs) 0%nat) B = data_of (skipn j cs) ++ TRAILER_START_MARKER :: rest.
+Proof.
+  intros EB Hj. rewrite offs_of_nth by exact Hj. cbn [Nat.add].
+  rewrite EB. rewrite <- (firstn_skipn j cs) at 2. rewrite data_of_app, <- app_assoc.
+  apply skipn_app_len.
+Qed.
+
+Lemma head_at n cs B rest j :
+  (1 <= n)%nat -> chunked n cs -> Forall (Forall item_wf) cs ->
+  B = data_of cs ++ TRAILER_START_MARKER :: rest -> (j < length cs)%nat ->
+  get_key_at B (nth j (offs_of 0 cs) 0%nat) = Some (chunk_head (nth j cs [])).
+Proof.
+  intros Hn C W EB Hj. pose proof (restart_at cs B rest j EB Hj) as R.
+  rewrite (skipn_nth_cons [] cs j Hj) in R.
+  assert (Hin : In (nth j cs []) cs) by (now apply nth_In).
+  pose proof (chunked_nonempty n Hn cs _ C Hin) as Hne.
+  rewrite Forall_forall in W. specialize (W _ Hin).
+  destruct (nth j cs []) as [|h t]; [congruence|].
+  inversion W as [|? ? [Wh _] _]; subst.
+  unfold data_of in R. cbn [flat_map enc_chunk] in R. rewrite <- !app_assoc in R.
+  cbn [chunk_head]. eapply get_key_at_ok; [exact Wh|exact R|].
+  apply app_nonnil_r, app_nonnil_r. discriminate.
+Qed.
+
+Lemma mid_bounds l r : (l < r)%nat -> (l <= Nat.div (l + r) 2 < r)%nat.
+Proof.
+  intros H. split.
+  - apply Nat.div_le_lower_bound; lia.
+  - apply Nat.div_lt_upper_bound; lia.
+Qed.
+
+Section Search.
+Variables (cs : list (list entry)) (B : list N) (r : bin_reader) (pred : key -> N -> bool).
+Let offs := offs_of 0 cs.
+Let hd (j : nat) : key * N := chunk_head (nth j cs []).
+Hypothesis Hget : forall j, (j < length cs)%nat -> bin_get r j = Some (nth j offs 0%nat).
+Hypothesis Hkey : forall j, (j < length cs)%nat -> get_key_at B (nth j offs 0%nat) = Some (hd j).
+
+Definition pp_inv (l : nat) : Prop :=
+  (l <= length cs)%nat /\ (l = 0%nat \/ pred (fst (hd (l - 1))) (snd (hd (l - 1))) = true).
+
+Lemma pp_loop_ok : forall fuel lft rgt,
+  (lft <= rgt)%nat -> (rgt <= length cs)%nat -> (rgt - lft < fuel)%nat -> pp_inv lft ->
+  exists l', pp_loop fuel B r pred lft rgt = Some l' /\ pp_inv l'.
+Proof.
+  induction fuel as [|f IH]; intros lft rgt H1 H2 Hf I; [lia|].
+  cbn [pp_loop]. destruct (Nat.ltb_spec lft rgt) as [Hlt|Hge].
+  - pose proof (mid_bounds lft rgt Hlt) as [M1 M2].
+    set (mid := Nat.div (lft + rgt) 2) in *.
+    rewrite (Hget mid) by lia. rewrite (Hkey mid) by lia.
+    destruct (hd mid) as [hk hs] eqn:E.
+    destruct (pred hk hs) eqn:P.
+    + apply IH; try lia. split; [lia|]. right.
+      replace (mid + 1 - 1)%nat with mid by lia. rewrite E. exact P.
+    + apply IH; try lia. exact I.
+  - exists lft. split; [reflexivity|exact I].
+Qed.
+
+Lemma partition_point_ok d :
+  get_binary_index_reader B d = Some r -> bin_reader_len r = Some (length cs) ->
+  (0 < length cs)%nat ->
+  exists idx, partition_point B d pred = Some (Some (nth idx offs 0%nat, idx)) /\
+    (idx < length cs)%nat /\
+    (idx = 0%nat \/ pred (fst (hd idx)) (snd (hd idx)) = true).
+Proof.
+  intros G L Hpos. unfold partition_point. rewrite G, L.
+  destruct (Nat.eqb_spec (length cs) 0) as [E|_]; [lia|].
+  destruct (pp_loop_ok (S (length cs)) 0 (length cs)) as (l' & -> & I1 & I2); try lia.
+  { split; [lia|now left]. }
+  destruct (Nat.eqb_spec l' 0) as [->|Hz].
+  - exists 0%nat. split; [|split; [lia|now left]].
+    unfold offs. destruct cs; [cbn [length] in Hpos; lia|reflexivity].
+  - destruct I2 as [I2|I2]; [lia|].
+    destruct (Nat.eqb_spec l' (length cs)) as [->|Hl].
+    + rewrite Hget by lia. exists (length cs - 1)%nat. split; [reflexivity|]. split; [lia|now right].
+    + rewrite Hget by lia. exists (l' - 1)%nat. split; [reflexivity|]. split; [lia|now right].
+Qed.
+
+End Search.
+
+(** * J. sorted item lists *)
+
+Lemma ikey_ltb_trans a b c : ikey_ltb a b = true -> ikey_ltb b c = true -> ikey_ltb a c = true.
+Proof.
+  unfold ikey_ltb. intros H1 H2.
+  destruct (key_cmp (ukey a) (ukey b)) eqn:E1; try discriminate;
+  destruct (key_cmp (ukey b) (ukey c)) eqn:E2; try discriminate.
+  - apply key_cmp_eq in E1, E2. rewrite E1, E2, key_cmp_refl.
+    apply N.ltb_lt in H1, H2. apply N.ltb_lt. lia.
+  - apply key_cmp_eq in E1. rewrite E1, E2. reflexivity.
+  - apply key_cmp_eq in E2. rewrite <- E2, E1. reflexivity.
+  - rewrite (key_cmp_lt_trans _ _ _ E1 E2). reflexivity.
+Qed.
+
+Lemma ikey_ltb_key_le a b : ikey_ltb a b = true -> key_cmp (ukey a) (ukey b) <> Gt.
+Proof. unfold ikey_ltb. destruct (key_cmp (ukey a) (ukey b)); congruence. Qed.
+
+Lemma sorted_b_tail e l : sorted_b (e :: l) = true -> sorted_b l = true.
+Proof.
+  destruct l as [|e' l]; [reflexivity|]. cbn [sorted_b]. intros H.
+  apply andb_true_iff in H. apply H.
+Qed.
+
+Lemma sorted_b_head : forall l e, sorted_b (e :: l) = true -> forall x, In x l -> ikey_ltb e x = true.
+Proof.
+  induction l as [|e' l IH]; intros e H x Hx; [destruct Hx|].
+  assert (H' := H). cbn [sorted_b] in H'. apply andb_true_iff in H'. destruct H' as [H1 H2].
+  destruct Hx as [<-|Hx]; [exact H1|].
+  eapply ikey_ltb_trans; [exact H1|]. apply IH; assumption.
+Qed.
+
+Lemma sorted_b_app_r : forall l1 l2, sorted_b (l1 ++ l2) = true -> sorted_b l2 = true.
+Proof.
+  induction l1 as [|e l1 IH]; intros l2 H; [exact H|].
+  apply IH. cbn [app] in H. now apply sorted_b_tail in H.
+Qed.
+
+(** skipping a sorted prefix that does not contain the key *)
+Lemma scan_split k S : forall l1 l2, sorted_b (l1 ++ l2) = true ->
+  (forall y, In y l1 -> ukey y <> k) -> scan_spec k S (l1 ++ l2) = scan_spec k S l2.
+Proof.
+  induction l1 as [|y l1 IH]; intros l2 Hs Hn; [reflexivity|].
+  cbn [app scan_spec]. cbn [app] in Hs.
+  destruct (key_cmp (ukey y) k) eqn:E.
+  - apply key_cmp_eq in E. exfalso. apply (Hn y); [now left|exact E].
+  - apply IH; [now apply sorted_b_tail in Hs|]. intros z Hz. apply Hn. now right.
+  - destruct l2 as [|x l2]; [reflexivity|]. cbn [scan_spec].
+    assert (Hx : ikey_ltb y x = true).
+    { apply (sorted_b_head _ _ Hs). apply in_or_app. right. now left. }
+    apply ikey_ltb_key_le in Hx.
+    assert (G : key_cmp (ukey x) k = Gt).
+    { apply key_lt_gt. apply key_lt_gt in E.
+      eapply key_lt_le_trans; [exact E|exact Hx]. }
+    now rewrite G.
+Qed.
+
+(** on sorted lists the scan computes the Spec's [newest] *)
+Lemma scan_spec_newest k S : forall l, sorted_b l = true -> scan_spec k S l = newest k S l.
+Proof.
+  induction l as [|e l IH]; intros Hs; [reflexivity|].
+  pose proof (sorted_b_tail _ _ Hs) as Hl. specialize (IH Hl).
+  pose proof (sorted_b_head _ _ Hs) as Hh.
+  cbn [scan_spec newest].
+  destruct (key_cmp (ukey e) k) eqn:E.
+  - pose proof E as E'. apply key_cmp_eq in E'.
+    destruct (N.leb_spec S (seq e)) as [Hle|Hlt].
+    + assert (M : matches k S e = false).
+      { apply not_true_iff_false. rewrite matches_iff. lia. }
+      rewrite M. exact IH.
+    + assert (M : matches k S e = true) by (apply matches_iff; split; [exact E'|lia]).
+      rewrite M.
+      destruct (newest k S l) as [e'|] eqn:R; [|reflexivity].
+      destruct (newest_some _ _ _ _ R) as [Hin Hm]. apply matches_iff in Hm. destruct Hm as [Hk _].
+      specialize (Hh e' Hin). unfold ikey_ltb in Hh. rewrite E', Hk, key_cmp_refl in Hh.
+      now rewrite Hh.
+  - assert (M : matches k S e = false).
+    { apply not_true_iff_false. rewrite matches_iff. intros [X _]. rewrite X, key_cmp_refl in E.
+      discriminate. }
+    rewrite M. exact IH.
+  - assert (M : matches k S e = false).
+    { apply not_true_iff_false. rewrite matches_iff. intros [X _]. rewrite X, key_cmp_refl in E.
+      discriminate. }
+    rewrite M. symmetry. apply newest_none. intros x Hx.
+    apply not_true_iff_false. rewrite matches_iff. intros [X _].
+    specialize (Hh x Hx). apply ikey_ltb_key_le in Hh. rewrite X in Hh. apply Hh.
+    apply key_lt_gt. apply key_lt_gt in E. exact E.
+Qed.
+
+(** * K. the binary-search path of [point_read] *)
+
+Lemma chunked_skipn n : forall j cs, chunked n cs -> chunked n (skipn j cs).
+Proof.
+  induction j as [|j IH]; intros cs C; [exact C|].
+  destruct cs as [|c cs]; [exact I|]. cbn [skipn]. apply IH.
+  cbn [chunked] in C. destruct cs; [exact I|apply C].
+Qed.
+
+Lemma Forall_skipn {A} (P : A -> Prop) j l : Forall P l -> Forall P (skipn j l).
+Proof.
+  intros H. apply Forall_forall. intros x Hx. rewrite Forall_forall in H. apply H.
+  rewrite <- (firstn_skipn j l). apply in_or_app. now right.
+Qed.
+
+Lemma concat_skipn_le {A} j (cs : list (list A)) : (length (concat (skipn j cs)) <= length (concat cs))%nat.
+Proof.
+  rewrite <- (firstn_skipn j cs) at 2. rewrite concat_app, app_length. lia.
+Qed.
+
+Lemma pr_from_peeked_ok B d k S p e st l :
+  item_ok B p e -> stream_ok B d st l -> (length l < Datatypes.S (length B))%nat ->
+  pr_from_peeked B d k S p st = Some (scan_spec k S (e :: l)).
+Proof.
+  intros OK St F. unfold pr_from_peeked. rewrite (pr_item_ok _ _ _ _ _ OK). cbn [scan_spec].
+  destruct (key_cmp (ukey e) k); try reflexivity.
+  - destruct (S <=? seq e); [|reflexivity]. now apply pr_loop_stream.
+  - now apply pr_loop_stream.
+Qed.
+
+Section PointRead.
+Variable hash : key -> N.
+Variables (ri nb : N) (cs : list (list entry)) (B : list N).
+Hypothesis F : block_facts hash ri nb cs B.
+Hypothesis Hri : 0 < ri.
+Hypothesis Hck : chunked (N.to_nat ri) cs.
+Hypothesis Hwf : Forall (Forall item_wf) cs.
+Hypothesis Hne : cs <> [].
+Hypothesis Hsorted : sorted_b (concat cs) = true.
+
+Let offs := offs_of 0 cs.
+
+Lemma cs_len_pos : (0 < length cs)%nat.
+Proof. destruct cs; [congruence|cbn [length]; lia]. Qed.
+
+(** the stream that starts at restart interval [j] *)
+Lemma stream_from_restart d st rest j off :
+  d_ri d = N.to_nat ri -> B = data_of cs ++ TRAILER_START_MARKER :: rest ->
+  (j < length cs)%nat -> lo_rem st = 0%nat -> hi_base st = None ->
+  off = nth j offs 0%nat ->
+  stream_ok B d (mkD off (lo_rem st) (lo_base st) (hi_off st) (hi_idx st) (hi_stack st) (hi_base st))
+    (concat (skipn j cs)) /\
+  (length (concat (skipn j cs)) < S (length B))%nat.
+Proof.
+  intros Dri EB Hj R Hb ->. split.
+  - apply stream_chunks with (rest := rest); cbn [lo_off lo_rem hi_base]; auto.
+    + rewrite Dri. lia.
+    + rewrite Dri. now apply chunked_skipn.
+    + now apply Forall_skipn.
+    + now apply restart_at.
+  - pose proof (concat_skipn_le j cs). pose proof (concat_le_data cs).
+    assert (LB := f_equal (@length N) EB). rewrite app_length in LB. lia.
+Qed.
+
+Lemma pr_binary_ok k S : pr_binary B k S = Some (scan_spec k S (concat cs)).
+Proof.
+  pose proof (reader_facts hash ri nb cs B F) as RF. cbv zeta in RF.
+  destruct RF as (d & st & r & rest & Dn & Dri & O & R & Hb & EB & G & L & Hget).
+  unfold pr_binary. rewrite Dn. unfold iter_seek, dec_seek.
+  pose proof cs_len_pos as Hpos.
+  pose proof (partition_point_ok cs B r (fun hk _ => key_ltb hk k) Hget
+              (fun j Hj => head_at (N.to_nat ri) cs B rest j ltac:(lia) Hck Hwf EB Hj)
+              d G L Hpos) as PP. cbv zeta in PP.
+  destruct PP as (idx & -> & Hidx & Hp).
+  destruct (stream_from_restart d st rest idx _ Dri EB Hidx R Hb eq_refl) as [St Fu].
+  (* everything before restart [idx] is smaller than the needle *)
+  assert (Hskip : scan_spec k S (concat cs) = scan_spec k S (concat (skipn idx cs))).
+  { rewrite <- (firstn_skipn idx cs) at 1. rewrite concat_app.
+    apply scan_split.
+    - rewrite <- concat_app, firstn_skipn. exact Hsorted.
+    - intros y Hy. destruct Hp as [->|Hp]; [destruct Hy|].
+      cbv beta in Hp. cbn [fst] in Hp.
+      rewrite (skipn_nth_cons [] cs idx Hidx) in *.
+      assert (Hin : In (nth idx cs []) cs) by (now apply nth_In).
+      pose proof (chunked_nonempty (N.to_nat ri) ltac:(lia) cs _ Hck Hin) as Hne'.
+      destruct (nth idx cs []) as [|h t] eqn:Eh; [congruence|]. cbn [chunk_head fst] in Hp.
+      assert (Hs : sorted_b (concat (firstn idx cs) ++ concat (skipn idx cs)) = true)
+        by (rewrite <- concat_app, firstn_skipn; exact Hsorted).
+      rewrite (skipn_nth_cons [] cs idx Hidx), Eh in Hs. cbn [concat app] in Hs.
+      assert (Hyh : ikey_ltb y h = true).
+      { clear -Hs Hy. revert Hs Hy. generalize (concat (firstn idx cs)) as l1.
+        induction l1 as [|z l1 IH]; intros Hs Hy; [destruct Hy|].
+        destruct Hy as [<-|Hy].
+        - apply (sorted_b_head _ _ Hs). apply in_or_app. right. now left.
+        - apply IH; [|exact Hy]. cbn [app] in Hs. now apply sorted_b_tail in Hs. }
+      apply ikey_ltb_key_le in Hyh. apply key_ltb_lt in Hp.
+      intros Ey. rewrite Ey in Hyh. apply (key_lt_irrefl (ukey h)).
+      eapply key_lt_le_trans; [exact Hp|exact Hyh]. }
+  rewrite Hskip. unfold offs in *.
+  destruct (seek_loop_stream B d k S _ _ _ St Fu) as
+    [[A1 A2]|(p & st' & e & l' & A1 & A2 & A3 & A4 & A5 & A6)].
+  - rewrite A1, A2. reflexivity.
+  - rewrite A1, A5. now apply pr_from_peeked_ok.
+Qed.
+
+End PointRead.
+
+(** * L. the hash index *)
+
+Lemma nth_set_nth : forall l i j x, (j < length l)%nat ->
+  nth i (set_nth j x l) 0 = if Nat.eqb i j then x else nth i l 0.
+Proof.
+  induction l as [|y l IH]; intros i j x Hj; [cbn [length] in Hj; lia|].
+  destruct j as [|j]; destruct i as [|i]; cbn [set_nth nth Nat.eqb]; try reflexivity.
+  apply IH. cbn [length] in Hj. lia.
+Qed.
+
+Definition bstep (v j : N) : N :=
+  if v =? 255 then v else if v =? 254 then j else if v =? j then v else 255.
+
+Lemma bstep_254 v j : j < 254 -> bstep v j <> 254.
+Proof.
+  intros Hj. unfold bstep.
+  destruct (N.eqb_spec v 255); [lia|]. destruct (N.eqb_spec v 254); [lia|].
+  destruct (N.eqb_spec v j); lia.
+Qed.
+
+Lemma bstep_lt v j w : bstep v j = w -> w < 254 -> j = w /\ (v = 254 \/ v = w).
+Proof.
+  unfold bstep. intros H Hw.
+  destruct (N.eqb_spec v 255); [lia|]. destruct (N.eqb_spec v 254); [lia|].
+  destruct (N.eqb_spec v j); lia.
+Qed.
+
+Fixpoint tag_chunks (j : N) (cs : list (list entry)) : list (entry * N) :=
+  match cs with
+  | [] => []
+  | c :: cs' => map (fun e => (e, j)) c ++ tag_chunks (j + 1) cs'
+  end.
+
+Lemma tag_chunks_in : forall cs j0 i c e, nth_error cs i = Some c -> In e c ->
+  In (e, j0 + N.of_nat i) (tag_chunks j0 cs).
+Proof.
+  induction cs as [|c0 cs IH]; intros j0 i c e Hn He; [destruct i; discriminate|].
+  cbn [tag_chunks]. apply in_or_app. destruct i as [|i].
+  - left. cbn [nth_error] in Hn. inversion Hn; subst. rewrite N.add_0_r.
+    apply (in_map (fun e => (e, j0))). exact He.
+  - right. cbn [nth_error] in Hn. replace (j0 + N.of_nat (S i)) with (j0 + 1 + N.of_nat i) by lia.
+    eapply IH; eauto.
+Qed.
+
+Lemma tag_chunks_bound : forall cs j0 x, In x (tag_chunks j0 cs) ->
+  exists i, (i < length cs)%nat /\ snd x = j0 + N.of_nat i.
+Proof.
+  induction cs as [|c0 cs IH]; intros j0 x H; [destruct H|].
+  cbn [tag_chunks] in H. apply in_app_or in H. destruct H as [H|H].
+  - apply in_map_iff in H. destruct H as (e & <- & _). exists 0%nat. cbn [length snd]. split; lia.
+  - destruct (IH _ _ H) as (i & Hi & E). exists (S i). cbn [length]. split; lia.
+Qed.
+
+Lemma in_concat_firstn {A} : forall n (cs : list (list A)) y, In y (concat (firstn n cs)) ->
+  exists i c, (i < n)%nat /\ nth_error cs i = Some c /\ In y c.
+Proof.
+  induction n as [|n IH]; intros cs y H; [destruct H|].
+  destruct cs as [|c cs]; [destruct H|]. cbn [firstn concat] in H.
+  apply in_app_or in H. destruct H as [H|H].
+  - exists 0%nat, c. repeat split; [lia|exact H].
+  - destruct (IH _ _ H) as (i & c' & Hi & Hn & Hy). exists (S i), c'. repeat split; [lia|exact Hn|exact Hy].
+Qed.
+
+Section HashIdx.
+Variable hash : key -> N.
+
+Lemma bucket_position_lt k n : (0 < n)%nat -> (bucket_position hash k n < n)%nat.
+Proof.
+  intros Hn. unfold bucket_position.
+  assert (hash k mod N.of_nat n < N.of_nat n) by (apply N.mod_lt; lia). lia.
+Qed.
+
+Lemma hset_nth h k j b : (0 < length h)%nat -> j < 254 ->
+  nth b (hset hash h k j) 0 =
+  if Nat.eqb b (bucket_position hash k (length h)) then bstep (nth b h 0) j else nth b h 0.
+Proof.
+  intros Hl Hj. unfold hset.
+  assert (G1 : 0 <? N.of_nat (length h) = true) by (apply N.ltb_lt; lia).
+  assert (G2 : j <? MAX_POINTERS_FOR_HASH_INDEX = true) by (apply N.ltb_lt; exact Hj).
+  rewrite G1, G2. cbn [andb]. unfold hash_set.
+  set (bp := bucket_position hash k (length h)).
+  assert (Hbp : (bp < length h)%nat) by (apply bucket_position_lt; exact Hl).
+  unfold MARKER_CONFLICT, MARKER_FREE, bstep.
+  destruct (Nat.eqb_spec b bp) as [->|Hne].
+  - destruct (N.eqb_spec (nth bp h 0) 255) as [E1|E1]; [reflexivity|].
+    destruct (N.eqb_spec (nth bp h 0) 254) as [E2|E2].
+    + rewrite nth_set_nth by exact Hbp. now rewrite Nat.eqb_refl.
+    + destruct (N.eqb_spec (nth bp h 0) j) as [E3|E3]; [reflexivity|].
+      rewrite nth_set_nth by exact Hbp. now rewrite Nat.eqb_refl.
+  - assert (X : Nat.eqb b bp = false) by (now apply Nat.eqb_neq).
+    destruct (nth bp h 0 =? 255); [reflexivity|].
+    destruct (nth bp h 0 =? 254); [rewrite nth_set_nth by exact Hbp; now rewrite X|].
+    destruct (nth bp h 0 =? j); [reflexivity|].
+    rewrite nth_set_nth by exact Hbp. now rewrite X.
+Qed.
+
+Definition hash_tagged (h : list N) (l : list (entry * N)) : list N :=
+  fold_left (fun h (x : entry * N) => hset hash h (ukey (fst x)) (snd x)) l h.
+
+Lemma hash_chunks_tagged : forall cs h j, hash_chunks hash h j cs = hash_tagged h (tag_chunks j cs).
+Proof.
+  induction cs as [|c cs IH]; intros h j; [reflexivity|].
+  cbn [hash_chunks tag_chunks]. unfold hash_tagged. rewrite fold_left_app.
+  fold (hash_tagged (fold_left (fun h (x : entry * N) => hset hash h (ukey (fst x)) (snd x))
+                               (map (fun e => (e, j)) c) h) (tag_chunks (j + 1) cs)).
+  rewrite <- IH. f_equal. unfold hash_chunk.
+  clear. revert h. induction c as [|e c IHc]; intros h; [reflexivity|].
+  cbn [map fold_left fst snd]. apply IHc.
+Qed.
+
+Lemma hash_tagged_length l : forall h, length (hash_tagged h l) = length h.
+Proof.
+  induction l as [|x l IH]; intros h; [reflexivity|].
+  unfold hash_tagged in *. cbn [fold_left]. rewrite IH. apply hset_length.
+Qed.
+
+Lemma hash_tagged_bucket b : forall l h, (0 < length h)%nat ->
+  (forall x, In x l -> snd x < 254) ->
+  (nth b (hash_tagged h l) 0 = 254 ->
+     nth b h 0 = 254 /\
+     forall x, In x l -> bucket_position hash (ukey (fst x)) (length h) <> b) /\
+  (nth b (hash_tagged h l) 0 < 254 ->
+     (nth b h 0 = nth b (hash_tagged h l) 0 \/
+      (nth b h 0 = 254 /\ exists x, In x l /\ snd x = nth b (hash_tagged h l) 0)) /\
+     forall x, In x l -> bucket_position hash (ukey (fst x)) (length h) = b ->
+               snd x = nth b (hash_tagged h l) 0).
+Proof.
+  induction l as [|x l IH]; intros h Hl Ht.
+  - cbn [hash_tagged fold_left]. split.
+    + intros E. split; [exact E|]. intros x [].
+    + intros E. split; [now left|]. intros x [].
+  - unfold hash_tagged. cbn [fold_left].
+    set (h1 := hset hash h (ukey (fst x)) (snd x)).
+    fold (hash_tagged h1 l).
+    assert (L1 : length h1 = length h) by apply hset_length.
+    assert (Hx : snd x < 254) by (apply Ht; now left).
+    specialize (IH h1 ltac:(lia) (fun y Hy => Ht y (or_intror Hy))).
+    rewrite L1 in IH. destruct IH as [IHa IHb].
+    pose proof (hset_nth h (ukey (fst x)) (snd x) b Hl Hx) as V1. fold h1 in V1.
+    set (v' := nth b (hash_tagged h1 l) 0) in *.
+    split.
+    + intros E. destruct (IHa E) as [E1 Hn]. rewrite E1 in V1.
+      destruct (Nat.eqb_spec b (bucket_position hash (ukey (fst x)) (length h))) as [Eb|Eb].
+      * exfalso. symmetry in V1. revert V1. apply bstep_254. exact Hx.
+      * split; [now symmetry|]. intros y [<-|Hy]; [congruence|now apply Hn].
+    + intros E. destruct (IHb E) as [E1 Hn].
+      destruct (Nat.eqb_spec b (bucket_position hash (ukey (fst x)) (length h))) as [Eb|Eb].
+      * assert (V : nth b h1 0 = v').
+        { destruct E1 as [E1|[E1 _]]; [exact E1|].
+          exfalso. rewrite E1 in V1. symmetry in V1. revert V1. apply bstep_254. exact Hx. }
+        rewrite V in V1. symmetry in V1. destruct (bstep_lt _ _ _ V1 E) as [J Hv].
+        split.
+        -- destruct Hv as [Hv|Hv]; [right|now left]. split; [exact Hv|].
+           exists x. split; [now left|exact J].
+        -- intros y [<-|Hy] Hb; [exact J|now apply Hn].
+      * split.
+        -- destruct E1 as [E1|[E1 (y & Hy & Ey)]].
+           ++ left. congruence.
+           ++ right. split; [congruence|]. exists y. split; [now right|exact Ey].
+        -- intros y [<-|Hy] Hb; [congruence|now apply Hn].
+Qed.
+
+End HashIdx.
+
+(** * M. THEOREM 3: [point_read] through all three paths *)
+
+Lemma nth_repeat_free b n : (b < n)%nat -> nth b (repeat MARKER_FREE n) 0 = 254.
+Proof.
+  revert b; induction n as [|n IH]; intros b H; [lia|].
+  destruct b; cbn [repeat nth]; [reflexivity|]. apply IH. lia.
+Qed.
+
+Section PointReadHash.
+Variable hash : key -> N.
+Variables (ri nb : N) (cs : list (list entry)) (B : list N).
+Hypothesis F : block_facts hash ri nb cs B.
+Hypothesis Hri : 0 < ri.
+Hypothesis Hck : chunked (N.to_nat ri) cs.
+Hypothesis Hwf : Forall (Forall item_wf) cs.
+Hypothesis Hne : cs <> [].
+Hypothesis Hsorted : sorted_b (concat cs) = true.
+
+Theorem point_read_res_ok k S :
+  point_read_res hash B k S = Some (scan_spec k S (concat cs)).
+Proof.
+  pose proof (pr_binary_ok hash ri nb cs B F Hri Hck Hwf Hne Hsorted k S) as PB.
+  pose proof (reader_facts hash ri nb cs B F) as RF. cbv zeta in RF.
+  destruct RF as (d & st & r & rest & Dn & Dri & O & R & Hb & EB & G & L & Hget).
+  destruct F as (step & HI & TR & hlen & hoff & F1 & LTR & F2 & F3 & F4 & F5). cbv zeta in *.
+  unfold point_read_res, get_hash_index_reader. rewrite F2. cbn [t_hashlen t_hashoff].
+  destruct F5 as [[-> ->]|(Ehl & HIne & Eho & EHI & Lcs)].
+  - change (0 =? 0) with true. cbv iota. exact PB.
+  - assert (Hlen : (0 < length HI)%nat) by (destruct HI; [congruence|cbn [length]; lia]).
+    assert (X : hlen =? 0 = false) by (apply N.eqb_neq; lia). rewrite X.
+    rewrite Ehl, Eho, !Nat2N.id.
+    assert (SL : slice B (length (data_of cs) + 1 + length (bin_bytes step (offs_of 0 cs)))
+                   (length (data_of cs) + 1 + length (bin_bytes step (offs_of 0 cs)) + length HI)
+                 = Some HI).
+    { apply slice_at' with (rest := TR); [|destruct TR; [discriminate|discriminate]].
+      rewrite F1 at 1.
+      replace (length (data_of cs) + 1 + length (bin_bytes step (offs_of 0 cs)))%nat
+        with (length ((data_of cs ++ [TRAILER_START_MARKER]) ++ bin_bytes step (offs_of 0 cs)))
+        by (rewrite !app_length; reflexivity).
+      change (data_of cs ++ TRAILER_START_MARKER :: bin_bytes step (offs_of 0 cs) ++ HI ++ TR)
+        with (data_of cs ++ [TRAILER_START_MARKER] ++ bin_bytes step (offs_of 0 cs) ++ HI ++ TR).
+      rewrite !app_assoc. rewrite <- (app_assoc _ HI TR). apply skipn_app_len. }
+    rewrite SL. unfold hash_get.
+    set (bk := bucket_position hash k (length HI)).
+    set (m := nth bk HI 0).
+    (* what the builder guarantees about bucket [bk] *)
+    assert (LHI : length HI = N.to_nat nb).
+    { rewrite EHI, hash_chunks_length. apply repeat_length. }
+    assert (Htags : forall x, In x (tag_chunks 0 cs) -> snd x < 254).
+    { intros x Hx. destruct (tag_chunks_bound _ _ _ Hx) as (i & Hi & ->). lia. }
+    pose proof (hash_tagged_bucket hash bk (tag_chunks 0 cs) (repeat MARKER_FREE (N.to_nat nb))
+                  ltac:(rewrite repeat_length; lia) Htags) as [BA BB].
+    rewrite <- hash_chunks_tagged, <- EHI in BA, BB. fold m in BA, BB.
+    rewrite repeat_length, <- LHI in BA, BB. fold bk in BA, BB.
+    assert (Hbk : (bk < length HI)%nat) by (apply bucket_position_lt; exact Hlen).
+    rewrite nth_repeat_free in BA, BB by lia.
+    assert (Hm : m < 256).
+    { assert (W : Forall (fun b => b < 256) HI).
+      { rewrite EHI. apply hash_chunks_wf. apply repeat_wf. }
+      rewrite Forall_forall in W. apply W. apply nth_In. exact Hbk. }
+    unfold MARKER_FREE, MARKER_CONFLICT.
+    destruct (N.eqb_spec m 254) as [E254|N254].
+    + (* FREE: no item hashes into the bucket, so none has the key *)
+      destruct (BA E254) as [_ Hnone].
+      assert (Hno : forall y, In y (concat cs) -> ukey y <> k).
+      { intros y Hy Ek. apply in_concat in Hy. destruct Hy as (c & Hc & Hyc).
+        destruct (In_nth_error _ _ Hc) as (i & Hi).
+        pose proof (tag_chunks_in cs 0 i c y Hi Hyc) as Ht.
+        apply (Hnone _ Ht). cbn [fst]. now rewrite Ek. }
+      rewrite <- (app_nil_r (concat cs)). rewrite scan_split.
+      * reflexivity.
+      * rewrite app_nil_r. exact Hsorted.
+      * exact Hno.
+    + destruct (N.eqb_spec m 255) as [E255|N255]; [exact PB|].
+      (* a pointer to the one restart interval that may hold the key *)
+      assert (Hm' : m < 254) by lia.
+      destruct (BB Hm') as [Hex Hall].
+      destruct Hex as [Hex|[_ (x & Hx & Ex)]]; [lia|].
+      destruct (tag_chunks_bound _ _ _ Hx) as (idx & Hidx & Etag). rewrite Ex in Etag.
+      assert (Eidx : N.to_nat m = idx) by lia.
+      rewrite Dn, G. rewrite Eidx. rewrite (Hget idx Hidx).
+      destruct (stream_from_restart hash ri nb cs B Hri Hck Hwf d st rest idx _ Dri EB Hidx R Hb eq_refl)
+        as [St Fu].
+      unfold set_lo_offset.
+      rewrite (pr_loop_stream B d k S _ _ _ St Fu). f_equal.
+      rewrite <- (firstn_skipn idx cs) at 2. rewrite concat_app. symmetry.
+      apply scan_split.
+      * rewrite <- concat_app, firstn_skipn. exact Hsorted.
+      * intros y Hy Ek. destruct (in_concat_firstn _ _ _ Hy) as (i & c & Hi & Hn & Hyc).
+        pose proof (tag_chunks_in cs 0 i c y Hn Hyc) as Ht.
+        specialize (Hall _ Ht). cbn [fst snd] in Hall.
+        rewrite Ek in Hall. specialize (Hall eq_refl). lia.
+Qed.
+
+End PointReadHash.
+
+(** the items [point_read] can be asked about: sorted strictly in InternalKey order *)
+Theorem datablock_point_read hash ri nb items k S :
+  items <> [] -> sorted_b items = true -> items_wf items -> 1 <= ri <= 255 ->
+  block_small (encode_block hash ri nb items) ->
+  point_read_res hash (encode_block hash ri nb items) k S = Some (newest k S items) /\
+  point_read hash (encode_block hash ri nb items) k S = newest k S items.
+Proof.
+  intros Hne Hs W Hri Hsm.
+  pose proof (encode_block_facts hash ri nb items ltac:(lia) ltac:(lia) Hne Hsm) as F.
+  assert (Hcat : concat (cs_of ri items) = items) by (apply cs_of_concat; lia).
+  assert (R : point_read_res hash (encode_block hash ri nb items) k S = Some (newest k S items)).
+  { rewrite <- (scan_spec_newest k S items Hs). rewrite <- Hcat at 2.
+    apply point_read_res_ok with (ri := ri) (nb := nb); auto.
+    - lia.
+    - apply chunks_of_chunked; lia.
+    - apply chunks_of_wf. exact W.
+    - intros E. rewrite E in Hcat. cbn in Hcat. congruence.
+    - now rewrite Hcat. }
+  split; [exact R|]. unfold point_read. now rewrite R.
+Qed.
+
+(** corollary: what [Memtable::get]-style lookup ([slab_get]) returns *)
+Print Assumptions compare_prefixed_slice_spec.
+Print Assumptions longest_shared_prefix_length_spec.
+Print Assumptions encode_bytes_wf.
+Print Assumptions datablock_roundtrip.
+Print Assumptions datablock_point_read.
